@@ -195,6 +195,7 @@ type modLoc struct {
 }
 
 type loopInfo struct {
+	nonFresh map[string]bool // components the loop body may write at pre-existing objects
 	header  *ssa.BasicBlock
 	body    map[*ssa.BasicBlock]bool
 	ordinal int
